@@ -8,6 +8,16 @@ HOOK_COMMITS = ["204cfe3", "2edc694", "e1d8638"]
 
 # id -> (category, technique, level text, level note, design ref)
 CHECKS = {
+ "C02": ("fault_enumeration",
+         "offline checker over recorded directory-operation traces of real runs: ordering facts at every acknowledgement, and every crash point (boundary between recorded operations) materialised as a directory image and opened by the real OpenReader/OpenWriter in a child process, judged against the abstract index",
+         "Real writers (safe mode, unsafe mode with persisted-callbacks, merge-happy / in-memory-merge / retention 1..3) run generated histories on a real directory behind a recording wrapper with seeded jitter at every seam; for each trace all operation boundaries are enumerated and each distinct image is recovered in a child: the content must be the abstract index after a batch between the last acknowledged and the last started one. Exhaustive over the boundaries of each recorded trace; interleavings sampled.",
+         "Storage model: a returned fsync means durable content, directory entries durable at operation completion, no bit rot. Acknowledgements logged after the fact (lenient). Single issuer so that applied order = call order.",
+         "DESIGN.md §2.6, §4 C02"),
+ "C03": ("fault_enumeration",
+         "crash-image enumeration over recorded traces including every torn state of the persist in flight (prefixes, zero-filled, half-written, stale tails), recovery by the real code in child processes, and depth-2 crash/recover/continue/crash sequences with their own recorded traces",
+         "As C02, plus for each in-flight persist the torn variants of its file; recovery must never kill the child, must succeed once any snapshot had completed, must yield a prefix state with both loaders, and the recovered writer must accept a batch; selected recovered images (torn newest snapshots first) are continued by a fresh writer in a child, whose trace is enumerated again. Exhaustive per trace over the stated torn-state set.",
+         "Storage model as C02; torn states limited to the enumerated classes; child death = fault.",
+         "DESIGN.md §2.6, §4 C03"),
  "C13": ("fault_enumeration",
          "runtime monitoring of the real FileSystemDirectory.Persist under an enumerated grid of item sizes, pre-existing file states and fault placements, with os-level observation and fault injection through a go build -overlay copy of os.File (Write/Sync/Close/Truncate hooks)",
          "Every cell of the grid (7 sizes x 3 chunkings x 4 pre-existing states x {no fault, item writer failing after k bytes, cancellation after k bytes, os write failing after a partial write, os Sync failing, os Close failing} with k over a boundary set x both item kinds, plus a real ice segment and a real snapshot) is executed against the real directory; success requires byte-exact content and an observed successful Sync after the last write and before return; failure requires that nothing is left under the name. Exhaustive over the grid.",
